@@ -164,8 +164,59 @@ func currentRoles(p *Program) []roleEntry {
 	return out
 }
 
+// currentFields lists the unexported fields of the module's struct types as role entries named
+// "field:<pkg>.<Type>.<field>", with the field's type in Sig and its position in Recv.
+func currentFields(p *Program) []roleEntry {
+	var out []roleEntry
+	var paths []string
+	for path := range p.Pkgs {
+		paths = append(paths, path)
+	}
+	sort.Strings(paths)
+	q := func(pk *types.Package) string { return pk.Name() }
+	for _, path := range paths {
+		pk := p.Pkgs[path]
+		if !strings.HasPrefix(path, modPath+"/") || strings.Contains(path, "fakes") || pk.Types == nil {
+			continue
+		}
+		sc := pk.Types.Scope()
+		for _, name := range sc.Names() {
+			tn, ok := sc.Lookup(name).(*types.TypeName)
+			if !ok || strings.HasSuffix(p.Fset.Position(tn.Pos()).Filename, ".pb.go") {
+				continue
+			}
+			st, ok := tn.Type().Underlying().(*types.Struct)
+			if !ok {
+				continue
+			}
+			tname := shortPkg(path) + "." + name
+			if c, ok := typeAlias[tname]; ok {
+				tname = c
+			}
+			for i := 0; i < st.NumFields(); i++ {
+				f := st.Field(i)
+				if f.Exported() || f.Name() == "_" {
+					continue
+				}
+				out = append(out, roleEntry{Name: "field:" + tname + "." + f.Name(), Pkg: shortPkg(path), Recv: fmt.Sprint(i), Sig: types.TypeString(f.Type(), q)})
+			}
+		}
+	}
+	return out
+}
+
+// fieldAlias maps a renamed unexported struct field (bare name) to its recorded name.
+var fieldAlias = map[string]string{}
+
+func canonField(name string) string {
+	if c, ok := fieldAlias[name]; ok {
+		return c
+	}
+	return name
+}
+
 func dumpRoles(p *Program, path string) error {
-	b, err := json.MarshalIndent(currentRoles(p), "", " ")
+	b, err := json.MarshalIndent(append(currentRoles(p), currentFields(p)...), "", " ")
 	if err != nil {
 		return err
 	}
@@ -183,6 +234,19 @@ func resolveRenames(p *Program, rolesPath string) []string {
 	var recorded []roleEntry
 	if json.Unmarshal(b, &recorded) != nil {
 		return []string{"roles.json unreadable: rename resolution disabled"}
+	}
+	fieldAlias = map[string]string{}
+	var recFields []roleEntry
+	{
+		var fns []roleEntry
+		for _, e := range recorded {
+			if strings.HasPrefix(e.Name, "field:") {
+				recFields = append(recFields, e)
+			} else {
+				fns = append(fns, e)
+			}
+		}
+		recorded = fns
 	}
 	cur := currentRoles(p)
 	curBy := map[string]roleEntry{}
@@ -289,7 +353,12 @@ func resolveRenames(p *Program, rolesPath string) []string {
 			}
 			var cands []roleEntry
 			for _, f := range fresh {
-				if used[f.Name] || f.Pkg != m.Pkg || f.Recv != m.Recv || f.Sig != m.Sig {
+				if used[f.Name] || f.Pkg != m.Pkg {
+					continue
+				}
+				// same receiver and signature — or a method turned into a function that takes the
+				// receiver as its first parameter (and the reverse)
+				if !(f.Recv == m.Recv && f.Sig == m.Sig) && !methodAsFunc(m, f) && !methodAsFunc(f, m) {
 					continue
 				}
 				fc, fe := canon(f.Callers), canon(f.Callees)
@@ -303,6 +372,63 @@ func resolveRenames(p *Program, rolesPath string) []string {
 				done[m.Name] = true
 				changed = true
 				notes = append(notes, fmt.Sprintf("unexported function %s is analysed under its recorded name %s (same package, receiver and signature, shared callers)", cands[0].Name, m.Name))
+			}
+		}
+	}
+	// 3. renamed unexported struct fields: per struct type, a recorded field that is gone and a
+	// current field that is not recorded, with the same type — unique, or at the same position
+	curFields := currentFields(p)
+	byType := func(es []roleEntry) map[string][]roleEntry {
+		m := map[string][]roleEntry{}
+		for _, e := range es {
+			t := e.Name[len("field:"):strings.LastIndex(e.Name, ".")]
+			m[t] = append(m[t], e)
+		}
+		return m
+	}
+	recT, curT := byType(recFields), byType(curFields)
+	for t, rfs := range recT {
+		cfs := curT[t]
+		has := func(es []roleEntry, name string) bool {
+			for _, e := range es {
+				if e.Name == name {
+					return true
+				}
+			}
+			return false
+		}
+		var gone, fresh []roleEntry
+		for _, r := range rfs {
+			if !has(cfs, r.Name) {
+				gone = append(gone, r)
+			}
+		}
+		for _, cf := range cfs {
+			if !has(rfs, cf.Name) {
+				fresh = append(fresh, cf)
+			}
+		}
+		for _, g := range gone {
+			var cands []roleEntry
+			for _, f := range fresh {
+				if f.Sig == g.Sig {
+					cands = append(cands, f)
+				}
+			}
+			if len(cands) > 1 {
+				var same []roleEntry
+				for _, f := range cands {
+					if f.Recv == g.Recv {
+						same = append(same, f)
+					}
+				}
+				cands = same
+			}
+			if len(cands) == 1 {
+				nw := cands[0].Name[strings.LastIndex(cands[0].Name, ".")+1:]
+				old := g.Name[strings.LastIndex(g.Name, ".")+1:]
+				fieldAlias[nw] = old
+				notes = append(notes, fmt.Sprintf("unexported field %s.%s is analysed under its recorded name %s", t, nw, old))
 			}
 		}
 	}
@@ -375,4 +501,23 @@ func canonical(name string) string {
 		}
 	}
 	return name
+}
+
+// methodAsFunc: m is a method with receiver R and signature (P)(Q); f is a plain function with
+// signature (R,P)(Q).
+func methodAsFunc(m, f roleEntry) bool {
+	if m.Recv == "" || f.Recv != "" {
+		return false
+	}
+	i := strings.Index(m.Sig, ")(")
+	if i < 0 {
+		return false
+	}
+	params := m.Sig[1:i]
+	want := "(" + m.Recv
+	if params != "" {
+		want += "," + params
+	}
+	want += m.Sig[i:]
+	return f.Sig == want
 }
